@@ -638,6 +638,12 @@ def algebra_job(job):
                     ro = r.filter(sub2, filter_connections=True)
                     cases.append(dict(id=f"{job['id']}/record_filter_sub/{vi}", op="record_filter", rec=_tables_of_record(r), sel=list(sel), flag=True, ends=ends2,
                                       out=_tables_of_record(ro)))
+                    # the same through ExperimentRecord.filter (every episode of the experiment; all nodes selected with fewer connections is the
+                    # case a "nothing to drop" shortcut gets wrong: seeded change C14-h)
+                    expf = base.ExperimentRecord(episodes=recs).filter(sub2, filter_connections=True)
+                    for ei, (r0, r1) in enumerate(zip(recs, expf.episodes)):
+                        cases.append(dict(id=f"{job['id']}/experiment_filter_sub/{vi}/e{ei}", op="record_filter", rec=_tables_of_record(r0), sel=list(sel), flag=True,
+                                          ends=ends2, out=_tables_of_record(r1)))
             except Exception as e:  # noqa
                 cases_extra.append(dict(kind="filter_with_substructure_raises", sel=list(sel), ok=False, detail=repr(e)[:300]))
     # a message that was sent but never consumed (seq_in = -1) in the MIDDLE of a connection (legal per the Edge docstring; e.g. a lossy
@@ -819,15 +825,22 @@ def solver_e2e_job(job):
     def log_cb(p, l):
         seen.append((onp.asarray(p).copy(), float(l)))
 
+    # every fifth CEM job: a smooth loss with a NON-ZERO interior optimum and a long run - the elites converge tightly (spread ~1e-6 around ~1):
+    # their spread is tiny but never NaN (seeded change C18-g computed it as sqrt(E[x^2] - E[x]^2) in float32: cancellation, negative, NaN)
+    beyond = kind == "cem" and (seed // 2) % 5 == 2
+    target = jnp.asarray(lo + 0.8 * (hi - lo)) if beyond else jnp.zeros((D,))
+    if beyond:
+        nan_at = 1e9
+
     def loss(params, transform, rng_):
         p = unpack(params)
-        val = jnp.floor(jnp.sum(jnp.abs(p)) * 8.0)
+        val = jnp.sum(jnp.square(p - target)) * 8.0 if beyond else jnp.floor(jnp.sum(jnp.abs(p)) * 8.0)
         l = jnp.where(p[0] > nan_at, jnp.nan, val)
         jax.debug.callback(log_cb, p, l)
         return l
 
     iters = []
-    T = job.get("steps", 6)
+    T = 30 if beyond else job.get("steps", 6)
     key = jax.random.PRNGKey(seed)
     if kind == "cem":
         from rex.cem import CEMSolver, cem_step
@@ -836,6 +849,8 @@ def solver_e2e_job(job):
         smooth, ep = rng.choice([0.0, 0.1, 0.5, 0.9]), rng.choice([0.26, 0.3, 0.5])
         if (seed // 2) % 3 == 1:   # a SINGLE elite (int(num_samples * elite_portion) = 1): the spread of one sample is 0, never NaN (seeded change C18-e)
             ns, ep = ((10, 0.1) if seed % 4 < 2 else (4, 0.26))
+        if beyond:
+            smooth, ns = 0.1, max(ns, 16)
         solver = CEMSolver.init(u_min=u_min, u_max=u_max, num_samples=ns, evolution_smoothing=smooth, elite_portion=ep)
         state = solver.init_state(mean=pack(lo + (hi - lo) * rng.random()))
         for k in range(T):
